@@ -21,6 +21,7 @@ import (
 	"github.com/elnosh/gonuts/cashu/nuts/nut12"
 	"github.com/elnosh/gonuts/cashu/nuts/nut13"
 	"github.com/elnosh/gonuts/crypto"
+	"github.com/elnosh/gonuts/mint/storage/sqlite"
 
 	"verif/harness/world"
 )
@@ -201,6 +202,92 @@ func cmdCryptoLog(args []string) int {
 			}
 		}
 		w.Close()
+		// ---- a mint whose stored seed puts a leading-zero key on the keyset path (BIP32 edge class) ----
+		for i := 0; i < 40000; i++ {
+			cand := sha256.Sum256([]byte(fmt.Sprintf("mint-seed-search-%d-%d", *seed, i)))
+			master, err := hdkeychain.NewMaster(cand[:], &chaincfg.MainNetParams)
+			if err != nil {
+				continue
+			}
+			kp, err := crypto.DeriveKeysetPath(master, 0)
+			if err != nil {
+				continue
+			}
+			pk, err := kp.ECPrivKey()
+			if err != nil || pk.Serialize()[0] != 0 {
+				continue
+			}
+			dir := filepath.Join(*scratch, "m-edge")
+			os.MkdirAll(dir, 0o700)
+			db, err := sqlite.InitSQLite(dir)
+			if err != nil {
+				break
+			}
+			db.SaveSeed(cand[:])
+			db.Close()
+			w2, err := world.New(world.Options{Dir: dir, FeePpk: 0, Seed: *seed})
+			if err != nil {
+				fmt.Fprintln(os.Stderr, "edge-seed mint:", err)
+				return 2
+			}
+			ms, _ := w2.Raw.GetSeed()
+			ks := w2.Mint.GetActiveKeyset()
+			emit(map[string]any{"fn": "MintKeysetId", "seed": hex.EncodeToString(ms), "idx": 0, "out": ks.Id, "class": "leading-zero-key-on-path"})
+			for b := 0; b < 60; b++ {
+				emit(map[string]any{"fn": "MintPubKey", "seed": hex.EncodeToString(ms), "idx": 0, "i": b, "out": ptHex(ks.Keys[uint64(1)<<uint(b)]), "class": "leading-zero-key-on-path"})
+			}
+			w2.Close()
+			break
+		}
+		// ---- NUT-13, edge class of BIP32: a key on the path that serialises with leading zero bytes ----
+		// (inputs found by search; the expected values are computed by TLC as for every other line)
+		leading := func(k *hdkeychain.ExtendedKey) bool {
+			pk, err := k.ECPrivKey()
+			return err == nil && pk.Serialize()[0] == 0
+		}
+		foundKs, foundCtr, foundMaster := 0, 0, 0
+		for i := 0; i < 60000 && (foundKs < 4 || foundCtr < 4 || foundMaster < 2); i++ {
+			seedb := sha256.Sum256([]byte(fmt.Sprintf("leading-zero-search-%d-%d", *seed, i)))
+			master, err := hdkeychain.NewMaster(seedb[:], &chaincfg.MainNetParams)
+			if err != nil {
+				continue
+			}
+			id := []string{"009a1f293253e41e", "00ffffffffffffff", "8000000000000001"}[i%3]
+			path, err := nut13.DeriveKeysetPath(master, id)
+			if err != nil {
+				continue
+			}
+			ctr := uint32(i % 7)
+			cpath, err := path.Derive(hdkeychain.HardenedKeyStart + ctr)
+			if err != nil {
+				continue
+			}
+			hit := false
+			if leading(master) && foundMaster < 2 {
+				foundMaster++
+				hit = true
+			}
+			if leading(path) && foundKs < 4 {
+				foundKs++
+				hit = true
+			}
+			if leading(cpath) && foundCtr < 4 {
+				foundCtr++
+				hit = true
+			}
+			if !hit {
+				continue
+			}
+			for _, c := range []uint32{ctr, ctr + 1} {
+				sec, err1 := nut13.DeriveSecret(path, c)
+				r, err2 := nut13.DeriveBlindingFactor(path, c)
+				if err1 != nil || err2 != nil {
+					continue
+				}
+				emit(map[string]any{"fn": "Nut13Secret", "seed": hex.EncodeToString(seedb[:]), "id": id, "ctr": int(c), "out": sec, "class": "leading-zero-key-on-path"})
+				emit(map[string]any{"fn": "Nut13R", "seed": hex.EncodeToString(seedb[:]), "id": id, "ctr": int(c), "out": hex.EncodeToString(r.Serialize()), "class": "leading-zero-key-on-path"})
+			}
+		}
 		// ---- NUT-13 ----
 		ids := []string{"009a1f293253e41e", "00ffffffffffffff", "ffffffffffffffff", "8000000000000000", "7fffffffffffffff", "0000000000000000", "00000000ffffffff"}
 		ctrs := []uint32{0, 1, 2, 65536, 1<<31 - 2, 1<<31 - 1}
